@@ -372,7 +372,13 @@ def iban_loader_shard(args):
         for o, nm in zip(overlays, names):
             files[nm] = OVERLAYS[o]
         full = len(fixed) == len(bundled)
-        for listing in itertools.permutations(sorted(files)):
+        names_sorted = sorted(files)
+        if tier == "quick" and len(files) == 3 and not fixed:
+            # three overlay-only files: first / reversed / rotated listing (all 6 in the thorough tier)
+            listings = [tuple(names_sorted), tuple(reversed(names_sorted)), tuple(names_sorted[1:] + names_sorted[:1])]
+        else:
+            listings = list(itertools.permutations(names_sorted))
+        for listing in listings:
             part.count((tuple(chosen), names, listing))
             probs = raw_load_problems(files, list(listing))
             for sig, exp, obs in probs:
